@@ -34,6 +34,14 @@ struct Shared {
     inbound: VecDeque<Response<String>>,
     violations: Vec<String>,
     bodies: Vec<(u64, String)>,
+    written: usize,
+    /// (id, trace id, span id, sampled, deadline) of every Request written; (id, trace id, span id, sampled) of every Cancel
+    req_ctx: Vec<(u64, u128, u64, bool, std::time::Instant)>,
+    cancel_ctx: Vec<(u64, u128, u64, bool)>,
+    base: Option<std::time::Instant>,
+    flushed: usize,
+    capacity: usize,
+    replies_injected: usize,
 }
 
 #[derive(Clone)]
@@ -68,25 +76,57 @@ impl Sink<ClientMessage<String>> for T {
             s.violations.push("C14: start_send after the transport was closed".into());
         }
         s.granted = false;
+        s.written += 1;
+        if let ClientMessage::Request(_) = &m {
+            // C11: requests transmitted and neither cancelled nor answered (answers counted from the moment the peer sent
+            // them, which can only under-estimate what the dispatch still tracks)
+            let reqs = s.wire.iter().filter(|w| matches!(w, W::Req(_))).count() + 1;
+            let cancels = s.wire.iter().filter(|w| matches!(w, W::Cancel(_))).count();
+            let outstanding = reqs.saturating_sub(cancels + s.replies_injected);
+            if s.capacity > 0 && outstanding > s.capacity {
+                let cap = s.capacity;
+                s.violations.push(format!("C11: {outstanding} requests transmitted and unfinished with an in-flight maximum of {cap}"));
+            }
+        }
         match m {
             ClientMessage::Request(r) => {
+                let t = &r.context.trace_context;
+                s.req_ctx.push((r.id, u128::from(t.trace_id), u64::from(t.span_id), t.sampling_decision == tarpc::trace::SamplingDecision::Sampled, r.context.deadline));
                 s.bodies.push((r.id, r.message.clone()));
                 s.wire.push(W::Req(r.id))
             }
-            ClientMessage::Cancel { request_id, .. } => s.wire.push(W::Cancel(request_id)),
+            ClientMessage::Cancel { request_id, trace_context: t } => {
+                s.cancel_ctx.push((request_id, u128::from(t.trace_id), u64::from(t.span_id), t.sampling_decision == tarpc::trace::SamplingDecision::Sampled));
+                s.wire.push(W::Cancel(request_id))
+            }
             _ => {}
         }
         Ok(())
     }
     fn poll_flush(self: Pin<&mut Self>, _: &mut Context<'_>) -> Poll<Result<(), Self::Error>> {
+        let mut s = self.0.lock().unwrap();
+        s.flushed = s.written;
         Poll::Ready(Ok(()))
     }
     fn poll_close(self: Pin<&mut Self>, _: &mut Context<'_>) -> Poll<Result<(), Self::Error>> {
         let mut s = self.0.lock().unwrap();
         s.closed = true;
+        s.flushed = s.written;
         s.wire.push(W::Closed);
         Poll::Ready(Ok(()))
     }
+}
+
+/// every call has its own trace id, sampling decision and deadline, so that an exchange is visible on the wire
+fn call_context(k: usize, base: std::time::Instant) -> context::Context {
+    let mut ctx = context::current();
+    ctx.deadline = base + std::time::Duration::from_secs(1000 * (k as u64 + 1));
+    ctx.trace_context = tarpc::trace::Context {
+        trace_id: tarpc::trace::TraceId::from(0xA0u128 + k as u128),
+        span_id: tarpc::trace::SpanId::from(0x50u64 + k as u64),
+        sampling_decision: if k % 2 == 1 { tarpc::trace::SamplingDecision::Sampled } else { tarpc::trace::SamplingDecision::Unsampled },
+    };
+    ctx
 }
 
 #[derive(Clone, Copy, Debug, PartialEq)]
@@ -111,7 +151,7 @@ struct Run {
 
 impl Run {
     fn new(capacity: usize) -> Run {
-        let shared = Arc::new(Mutex::new(Shared { gate_open: true, ..Default::default() }));
+        let shared = Arc::new(Mutex::new(Shared { gate_open: true, capacity, ..Default::default() }));
         let mut cfg = client::Config::default();
         cfg.max_in_flight_requests = capacity;
         cfg.pending_request_buffer = 8;
@@ -142,8 +182,16 @@ impl Run {
     }
     fn poll_dispatch(&mut self) {
         if self.dispatch_done.is_none() {
-            if let Poll::Ready(r) = self.dispatch.as_mut().poll(&mut Self::cx()) {
-                self.dispatch_done = Some(r);
+            match self.dispatch.as_mut().poll(&mut Self::cx()) {
+                Poll::Ready(r) => self.dispatch_done = Some(r),
+                Poll::Pending => {
+                    // C14: control went back to the executor: nothing written may remain unflushed
+                    let mut s = self.shared.lock().unwrap();
+                    if s.flushed != s.written && !s.violations.iter().any(|v| v.starts_with("C14: went idle")) {
+                        let n = s.written - s.flushed;
+                        s.violations.push(format!("C14: went idle (Pending) with {n} written item(s) not flushed"));
+                    }
+                }
             }
         }
         self.poll_calls();
@@ -151,7 +199,9 @@ impl Run {
     fn create(&mut self) {
         let k = self.calls.len();
         let c = self.client.as_ref().unwrap().clone();
-        let mut f: CallFut = Box::pin(async move { c.call(context::current(), format!("req {k}")).await });
+        let base = *self.shared.lock().unwrap().base.get_or_insert_with(std::time::Instant::now);
+        let ctx = call_context(k, base);
+        let mut f: CallFut = Box::pin(async move { c.call(ctx, format!("req {k}")).await });
         let first = f.as_mut().poll(&mut Self::cx());
         assert!(first.is_pending());
         self.calls.push(Some(f));
@@ -161,7 +211,11 @@ impl Run {
     }
     fn reply(&mut self, k: usize) {
         // ids are allocated in creation order, starting at 0
-        self.shared.lock().unwrap().inbound.push_back(Response { request_id: k as u64, message: Ok(format!("reply to {k}")) });
+        {
+            let mut s = self.shared.lock().unwrap();
+            s.inbound.push_back(Response { request_id: k as u64, message: Ok(format!("reply to {k}")) });
+            s.replies_injected += 1;
+        }
         self.reply_injected[k] = true;
     }
     fn drop_call(&mut self, k: usize) {
@@ -175,8 +229,24 @@ fn check(run: &Run, dropped_client: bool, desc: &str) -> Vec<String> {
     let mut errs: Vec<String> = vec![];
     let s = run.shared.lock().unwrap();
     let wire = &s.wire;
-    if let Some(v) = s.violations.first() {
+    for v in &s.violations {
         errs.push(format!("{v}; wire {wire:?}; {desc}"));
+    }
+    if let Some(base) = s.base {
+        for (id, trace_id, span_id, sampled, deadline) in &s.req_ctx {
+            let want = call_context(*id as usize, base);
+            if *trace_id != u128::from(want.trace_context.trace_id) || *sampled != (*id % 2 == 1) {
+                errs.push(format!("C18: request {id} was transmitted with trace id {trace_id:#x}, sampled {sampled} (its caller supplied {:#x}, sampled {}); {desc}", u128::from(want.trace_context.trace_id), *id % 2 == 1));
+            }
+            if *deadline != want.deadline {
+                errs.push(format!("C07: request {id} was transmitted with another deadline than its caller's; {desc}"));
+            }
+            for (cid, ctrace, cspan, csampled) in &s.cancel_ctx {
+                if cid == id && (ctrace != trace_id || cspan != span_id || csampled != sampled) {
+                    errs.push(format!("C18: the cancellation for request {id} carries trace id {ctrace:#x} / span id {cspan:#x} / sampled {csampled}, the request was transmitted with {trace_id:#x} / {span_id:#x} / {sampled}; {desc}"));
+                }
+            }
+        }
     }
     for (id, body) in &s.bodies {
         if *body != format!("req {id}") {
